@@ -7,6 +7,9 @@
 (*          payloads, GUID field order, tick 0 <-> zero time)                *)
 (*   str  : ReadStringBytes(SharedMemory) errors iff the declared length     *)
 (*          exceeds the buffer, otherwise returns exactly the bytes          *)
+(*   blen : a byte-slice function given fewer bytes than the width does not  *)
+(*          return and touches nothing behind the slice; given more, it uses *)
+(*          exactly the first `width` bytes                                  *)
 (*   stale: a stream read that fails sets Err and its result does not        *)
 (*          depend on what an earlier read left in the scratch buffer        *)
 (***************************************************************************)
@@ -38,6 +41,14 @@ Why(e) ==
         IF e.panic # "" THEN "Read" \o e.t \o " (stream) panicked on a short read: " \o e.panic
         ELSE IF ~e.errset THEN "Read" \o e.t \o " (stream): a failed read is not reflected in Err"
         ELSE IF e.a # e.b THEN "Read" \o e.t \o " (stream): the value returned after a failed read depends on the previous read (stale scratch bytes)"
+        ELSE ""
+    [] e.ev = "blen" ->
+        LET fn == (IF e.op = "read" THEN "Read" ELSE "Write") \o e.t \o "Bytes"
+            on == " on a slice of " \o ToString(e.n) \o " bytes (width " \o ToString(e.w) \o ")" IN
+        IF e.behind THEN fn \o " changes bytes that are not part of the value" \o on
+        ELSE IF e.n < e.w /\ e.returned THEN fn \o " returns normally" \o on \o ": it used bytes outside the slice"
+        ELSE IF e.n >= e.w /\ ~e.returned THEN fn \o " panics" \o on
+        ELSE IF e.n >= e.w /\ e.val # e.want THEN fn \o " does not use exactly the first bytes" \o on
         ELSE ""
     [] OTHER -> ""
 
